@@ -14,7 +14,22 @@ typedef struct vstream FILE;
 FILE* stdout = 0; FILE* stderr = 0; FILE* stdin = 0;
 
 static int vstreq(const char* a, const char* b) { while (*a && *a == *b) { a++; b++; } return *a == *b; }
-static int vfind(const char* name) { for (int i = 0; i < NFILES; i++) if (vfs[i].used && vstreq(vfs[i].name, name)) return i; return -1; }
+/* names are compared after the normalisation a file system applies: "x/../" and "./" components and doubled slashes vanish */
+static void vnorm(const char* name, char* out)
+{
+	int n = 0;
+	for (int i = 0; name[i] && n < 79; ) {
+		int j = i; while (name[j] && name[j] != '/') j++;
+		int len = j - i;
+		if (len == 2 && name[i] == '.' && name[i + 1] == '.') { if (n > 0) { n--; while (n > 0 && out[n - 1] != '/') n--; } }
+		else if (len == 0 || (len == 1 && name[i] == '.')) { }
+		else { for (int k = i; k < j && n < 79; k++) out[n++] = name[k]; if (name[j] == '/' && n < 79) out[n++] = '/'; }
+		i = name[j] ? j + 1 : j;
+	}
+	if (n > 0 && out[n - 1] == '/') n--;
+	out[n] = 0;
+}
+static int vfind(const char* name) { char a[80], b[80]; vnorm(name, a); for (int i = 0; i < NFILES; i++) if (vfs[i].used) { vnorm(vfs[i].name, b); if (vstreq(a, b)) return i; } return -1; }
 static int vcreate(const char* name)
 {
 	for (int i = 0; i < NFILES; i++) if (!vfs[i].used) {
